@@ -676,8 +676,11 @@ def _case_construct(c, st, G, case):
     regimes = [("widths not uniform within 1e-4", [z3.Not(uni)], "metric-branch", tight)]
     if all(n != 0 for n in shape):
         regimes += [("exactly uniform", [exact], "exactly-uniform", tight),
-                    ("uniform within 1e-4, bound up to 1.001e-4", [uni], "near-uniform-weak", loose),
-                    ("uniform within 1e-4", [uni], "near-uniform", Fraction(1, 10**6))]  # 1e-6: witnesses that survive the float replay
+                    ("uniform within 1e-4, bound up to 1.001e-4", [uni], "near-uniform-weak", loose)]
+        # (removed) a strict regime "uniform within 1e-4 => bound within 1e-6": a grid whose widths agree within the documented
+        # 1e-4 uniformity tolerance is *defined* to be uniform and takes the documented courant_factor/sqrt(3)*spacing step, so
+        # its step can exceed the minimum-width bound by that same 1e-4.  Demanding more asked for more than the statement
+        # (uniform detection "as documented"); the 1.001e-4 bound above is what is proved.  (harness correction, DESIGN 8.4)
     if all(n > 0 for n in shape):
         # the same obligation at two seeded width sets (a stated concretisation, cf symbolic): keeps the refutation direction
         # decidable (a wrong formula gives a one-variable query instead of a quartic in seven unknowns)
